@@ -55,6 +55,8 @@ const SNIPPETS: &[&str] = &[
     "local a# = require(\"nomod#\")\nprint(a#)",
     "goto done#\n::done#::\n::done#::",
     "while true do\n  break\n  print(1)\nend",
+    "local se# = = 1",
+    "---@class CT#\n\nlocal ct# = 1 ---@cast ct# CT#\nprint(ct#)",
 ];
 
 /// names used as undefined globals; the `globals` list and `globalsRegex` patterns select among them
@@ -248,7 +250,7 @@ impl Property for C20 {
         "C20"
     }
     fn rule(&self) -> String {
-        "cases = program of 3-12 snippets from a pool of 38 (each aimed at one or more diagnostic codes; instance-unique names) + 0-5 uses of named undefined globals, x 0-2 top-level `---@diagnostic enable|disable: codes` comments (never enable+disable of one code, no enable in meta files) x diagnostics config (disable/enables subsets of all codes skewed to the ones the pool triggers, severity map, globals list, anchored globalsRegex patterns incl. an invalid one, enable=false 5%) x placement main/meta/library/std. Baseline D0 = same text with the file-level comments neutralised, every code in `enables`. Judged: code in disable and not file-enabled => absent; code in enables (not in disable, not file-disabled) or file-enabled => every D0 diagnostic of that code present (undefined-global minus names selected by globals/globalsRegex); file-disabled (not file-enabled) => absent; severity[code] configured => reported with it; selected global names never reported; meta/library/std/enable=false => nothing. non-trivial = main placement, enable=true, disable and enables and severity non-empty and D0 has >=4 codes; distinct = distinct case digest".into()
+        "cases = program of 3-12 snippets from a pool of 40 (each aimed at one or more diagnostic codes; instance-unique names) + 0-5 uses of named undefined globals, x 0-2 top-level `---@diagnostic enable|disable: codes` comments (never enable+disable of one code, no enable in meta files) x diagnostics config (disable/enables subsets of all codes skewed to the ones the pool triggers, severity map, globals list, anchored globalsRegex patterns incl. an invalid one, enable=false 5%) x placement main/meta/library/std. Baseline D0 = same text with the file-level comments neutralised, every code in `enables`. Judged: code in disable and not file-enabled => absent; code in enables (not in disable, not file-disabled) or file-enabled => every D0 diagnostic of that code present (undefined-global minus names selected by globals/globalsRegex); file-disabled (not file-enabled) => absent; severity[code] configured => reported with it; selected global names never reported; meta/library/std/enable=false => nothing. non-trivial = main placement, enable=true, disable and enables and severity non-empty and D0 has >=4 codes; distinct = distinct case digest".into()
     }
     fn assumptions(&self) -> Vec<String> {
         vec![
@@ -259,7 +261,7 @@ impl Property for C20 {
         ]
     }
     fn cases(&self, tier: Tier) -> u32 {
-        tier.pick(16_000, 600_000)
+        tier.pick(100_000, 3_000_000)
     }
     fn strategy(&self, _tier: Tier) -> BoxedStrategy<Case> {
         let all = Arc::new(all_codes());
